@@ -82,6 +82,9 @@ def model_check(ctx, prop):
         # regression probe for the fixed RevertStatus defect (2565626): 4 operations on 2 revisions reach
         # install; refresh; revert(NotBlocked); failed refresh-to-kept, which MaxOps=3 does not
         cfgs.append("SnapSeq_mc_c10strict.cfg")
+    if prop == "C13":
+        # install + 2 refreshes + 2 reverts on 3 revisions: NotBlocked marks must accumulate across consecutive reverts
+        cfgs.append("SnapSeq_mc_c13chain.cfg")
     if prop == "C12":
         cfgs.append(ctx.pick("SnapSeq_mc_kernel_quick.cfg", "SnapSeq_mc_kernel.cfg"))     # boot.InUse answers
     total = {"states": 0, "transitions": 0, "coverage": {}, "constants": {}, "wall": 0.0, "depth": 0}
@@ -267,6 +270,40 @@ def directed_histories():
             op("setconfig", val=2), op("inhibit"),
             op("revert", rev=1, dev=True, fk=min(kk, 13)), op("revert", rev=1, nb=True),
             op("refresh", rev=3, chan="latest/edge", fk=kk), op("disable"), op("enable", fk=4), op("enable")]})
+    # ORDER of the kept revisions after a failed refresh to a kept revision that is >= 2 positions from the end
+    # (undoLinkSnap must rotate the candidate back, not swap it): 3 and 4 kept revisions, nothing discarded
+    # (retain 5), target 1 and 2, fault on link-snap itself (entry and inside LinkSnap) and at every later task;
+    # failed and successful reverts in the same positions (order must not change at all)
+    for n in (3, 4):
+        for target in (1, 2):
+            ops = [op("setretain", val=5, str=(n == 4))] + [op("install", rev=1)] + [op("refresh", rev=r) for r in range(2, n + 1)]
+            ops.append(op("refresh", rev=target, fk=9, fop="link-snap"))
+            for kk in range(9, 18):
+                ops.append(op("refresh", rev=target, fk=kk))
+            for kk in (7, 10, 13):
+                ops.append(op("revert", rev=target, fk=kk))
+            ops += [op("revert", rev=target), op("revert", rev=n, nb=True), op("refresh", rev=target, store=True, fk=12),
+                    op("refresh", rev=target), op("refresh", rev=2 if target == 1 else 1, fk=15)]
+            hs.append({"id": "d-order-n%d-t%d" % (n, target), "onClassic": n == 4, "ops": ops})
+    # chains of reverts over 3 and 4 kept revisions mixing NotBlocked / default flags (NotBlocked marks of EARLIER
+    # reverts must survive later reverts), RevertToRevision skipping revisions, Block()/RefreshCandidates after each step
+    def cands(n):
+        return [op("candidates", rev=r) for r in range(1, n + 1)]
+    for n in (3, 4):
+        base = [op("setretain", val=5)] + [op("install", rev=1)] + [op("refresh", rev=r) for r in range(2, n + 1)]
+        chains = {
+            "nbnb": [op("revert", rev=0, nb=True)] + cands(n) + [op("revert", rev=0, nb=True)] + cands(n)
+                    + ([op("revert", rev=0, nb=True)] + cands(n) if n == 4 else [])
+                    + [op("revert", rev=n, nb=True)] + cands(n) + [op("revert", rev=1)] + cands(n),
+            "mixed": [op("revert", rev=0, nb=True), op("revert", rev=0)] + cands(n) + [op("revert", rev=n, nb=True)] + cands(n)
+                     + [op("revert", rev=1, nb=True)] + cands(n) + [op("revert", rev=2)] + cands(n)
+                     + [op("revert", rev=1, nb=True, fk=9), op("revert", rev=1, nb=True)] + cands(n),
+            "skip": [op("revert", rev=1, nb=True)] + cands(n) + [op("revert", rev=2, nb=True)] + cands(n)
+                    + [op("revert", rev=n)] + cands(n) + [op("revert", rev=n - 1, nb=True), op("revert", rev=1, nb=True)] + cands(n)
+                    + [op("refresh", rev=n, store=True)] + cands(n),
+        }
+        for name, ch in chains.items():
+            hs.append({"id": "d-reverts-n%d-%s" % (n, name), "onClassic": n == 3, "ops": base + ch})
     # failed refresh to a kept revision after older revisions were discarded in the same change
     # (old-candidate-index must be corrected by countMissingRevs)
     for kk in (17, 18, 19):
